@@ -24,6 +24,7 @@ import os
 import ctypes
 import shutil
 import platform
+from hashlib import sha1  # nosec
 from typing import Callable, Any, Tuple, List
 from pathlib import Path
 
@@ -389,6 +390,27 @@ def copypath(source: str, dest: str) -> None:
                 os.mkdir(path)
             root = path
         shutil.copy(source, dest)
+
+
+def sha1_tail(path: str, size: int) -> bytes:
+    """
+    Calculate the SHA1 digest of the last `size` bytes of a file.
+
+    Parameters
+    ----------
+    path : str
+        path to the file
+    size : int
+        number of bytes at the end of the file to hash
+
+    Returns
+    -------
+    bytes
+        SHA1 digest of the tail of the file
+    """
+    with open(path, "rb") as fd:
+        fd.seek(-size, os.SEEK_END)
+        return sha1(fd.read()).digest()  # nosec
 
 
 def toggle_debug_mode(switch_on: bool) -> None:
